@@ -1,7 +1,7 @@
 """C03 Primary service discovery never reports secondary services."""
 from .lib.match import *
 
-SELECT = r'^bluetoe::details::(collect_primary_services|services_by_group)::each$|^bluetoe::server::(handle_read_by_group_type_request|handle_find_by_type_value_request)$|^bluetoe::service::read_primary_service_response$'
+SELECT = r'^bluetoe::details::(collect_primary_services|services_by_group)::each$|^bluetoe::server::(handle_read_by_group_type_request|handle_find_by_type_value_request)$|^bluetoe::service::read_primary_service_response$|^bluetoe::details::generate_attribute::access$'
 UNITS = lambda u: u in ('w_inst_att',) or u.startswith('t_att_read_by_group') or u.startswith('t_att_find_by_type')
 META = {
     'level': 'guarded-by rule on the two emitters of the Primary Service group (Read By Group Type: collect_primary_services::each -> read_primary_service_response; Find By Type Value: '
@@ -26,6 +26,8 @@ def run(chk, facts, tier):
     chk.rule('emit-only-primary', 'both group emitters report a service only on the edge (declaration attribute).uuid == gatt_uuids::primary_service, the attribute being attribute_at(index_ of that service)', floor=2)
     chk.rule('group-range', 'both emitters walk the services with index_ += Service::number_of_attributes and report the range [handle_by_index(index_), handle_by_index(index_ + Service::number_of_attributes - 1)]', floor=3)
     chk.rule('group-type-checked', 'Read By Group Type and Find By Type Value answer only for the «Primary Service» group type', floor=2)
+    chk.rule('uuid-match-compares-whole-value', 'the service declaration answers compare_value (Find By Type Value) with value_equal only under args.buffer_size == sizeof(uuid::bytes) && '
+             'equal(begin(uuid::bytes), end(uuid::bytes), args.buffer): a requested UUID of another length, or compared from another offset, never selects a service', floor=1)
     chk.rule('declaration-type-witness', 'a service with is_secondary_service has declaration type 0x2801, any other 0x2800 (definition of the declaration attribute)', floor=2)
     for fn in variants(facts, 'bluetoe::details::collect_primary_services::each', chk):
         em = fn.body.calls('read_primary_service_response')
@@ -108,3 +110,36 @@ def run(chk, facts, tier):
     gu = facts.enum('bluetoe::details::gatt_uuids') or {}
     ok = gu.get('primary_service') == 0x2800 and gu.get('secondary_service') == 0x2801
     chk.obligation('declaration-type-witness', 'enum gatt_uuids', 'primary_service=0x%x secondary_service=0x%x' % (gu.get('primary_service', 0), gu.get('secondary_service', 0)), ok, 'assigned numbers are 0x2800 / 0x2801', key='numbers')
+    seen = set()
+    for fn in facts.functions:
+        if fn.q != 'bluetoe::details::generate_attribute::access' or not fn.file.endswith('service.hpp'):
+            continue
+        rs = [r for r in fn.returns() if ret_value(r) is not None and ret_value(r).n == 'value_equal']
+        if not rs or (fn.kind, fn.line) in seen:
+            continue
+        seen.add((fn.kind, fn.line))
+        arg = fn.params[0]['n']
+        for r in rs:
+            ats = guard_atoms(fn, r)
+            def is_bytes(n, which):
+                n = strip_casts(n)
+                return n is not None and n.is_call(which) and len(n.args()) == 1 and strip_casts(n.args()[0]).n == 'bytes'
+            size_ok = any(op == '==' and not isinstance(l, int) and not isinstance(r2, int) and
+                          {True} == {x.k == 'UnaryExprOrTypeTraitExpr' and 'bytes' in x.text() or (x.n == 'buffer_size' and is_name(base_object(x), arg)) for x in (strip_casts(l), strip_casts(r2))}
+                          and {strip_casts(l).k, strip_casts(r2).k} == {'UnaryExprOrTypeTraitExpr', 'MemberExpr'} for l, op, r2 in ats)
+            eq_ok = False
+            for l, op, r2 in ats:
+                if isinstance(l, int) or op != '!=' or r2 != 0:
+                    continue
+                c = strip_casts(l)
+                if c.is_call('equal') and len(c.args()) == 3:
+                    a0, a1, a2 = c.args()
+                    e = elem_addr(a2)
+                    whole = is_bytes(a0, 'begin') and is_bytes(a1, 'end')
+                    from0 = (e is not None and strip_casts(e[0]).n == 'buffer' and cval(e[1]) == 0) or (strip_casts(a2).n == 'buffer')
+                    eq_ok = eq_ok or (whole and from0)
+            ok = size_ok and eq_ok
+            chk.instance('uuid-match-compares-whole-value', fn, 'value_equal at line %d behind size and whole-value comparison' % r.l, ok,
+                         '' if ok else 'a service is reported as matching although %s' % ('the requested value has another length than the service UUID' if not size_ok else 'not the whole requested value was compared with the service UUID'),
+                         node=r, key='value_equal:%s' % fn.kind)
+
